@@ -1,2 +1,161 @@
-(* C03 — stub *)
-From Zap Require Import Base.Wire C03.Model.
+(* C03 — proofs, part 1: every generated constructor delivers exactly its value.
+
+   The tables are concrete data regenerated from the source, so the statement
+   "for every constructor of the table and every value of its parameter type"
+   is proved constructor by constructor by symbolic evaluation of the model
+   (construct, then AddTo) on a symbolic value of the parameter type; what is
+   left after evaluation are (a) fixed-width conversion chains, closed by the
+   low-bits theorem (C03/Arith.v), (b) loops over slices, closed by one lemma
+   about element-wise loops, (c) the range split of Time.  A constructor whose
+   packing is lossy, or whose shape the tactic does not know, makes this file
+   fail to compile -- loudly. *)
+From Coq Require Import List ZArith Bool Lia String.
+From Coq.Strings Require Import Byte.
+Import ListNotations.
+From Zap Require Import Base.Wire C03.Lang C03.Arith C03.Model.
+Local Open Scope Z_scope.
+
+(* what "delivers exactly its value" means for constructor c on key k and value v *)
+Definition ctor_ok (stack : bytes) (c : ctor) (k : bytes) (v : val) : Prop :=
+  match construct T ctor_fuel stack (c_name c) k v with
+  | Some f =>
+      match addto T (addto_fuel v) f with
+      | Some cs =>
+          expected stack (c_name c) (c_param c) k v = Some (norm_calls cs) /\
+          fwfb f = true /\
+          (payload_self (c_param c) v = true -> fself f = true)
+      | None => False
+      end
+  | None => False
+  end.
+
+Arguments wrap : simpl never.
+Arguments in_numb : simpl never.
+Arguments in_rangeb : simpl never.
+Arguments run_loop : simpl never.
+Arguments loop1 : simpl never.
+Arguments exp_elem : simpl never.
+Arguments self_equal : simpl nomatch.
+Arguments in_typeb t v : simpl nomatch.
+Arguments payload_self t v : simpl nomatch.
+
+(* ---------- conversions ---------- *)
+Lemma wrap1_id t a z : in_numb t z = true -> same_sw t a = true -> wrap a z = z.
+Proof. intros H S. apply in_numb_iff in H. exact (lowbits_sound t a [] z S eq_refl H). Qed.
+Lemma wrap2_id t a b z :
+  in_numb t z = true -> same_sw t a = true -> chain_ok t [b] = true -> wrap a (wrap b z) = z.
+Proof. intros H S C. apply in_numb_iff in H. exact (lowbits_sound t a [b] z S C H). Qed.
+Lemma in_numb_same t a z : in_numb t z = true -> same_sw t a = true -> in_numb a z = true.
+Proof.
+  intros H S. apply andb_true_iff in S as [Sg Sw]. apply Bool.eqb_prop in Sg. apply Z.eqb_eq in Sw.
+  unfold in_numb in *. rewrite <- Sg, <- Sw. exact H.
+Qed.
+Lemma range64 b : in_rangeb 0 (2 ^ 64) b = in_numb NUint64 b. Proof. reflexivity. Qed.
+Lemma range32 b : in_rangeb 0 (2 ^ 32) b = in_numb NUint32 b. Proof. reflexivity. Qed.
+
+(* the range test of zap.Time: neither before time.Unix(0, MinInt64) nor after time.Unix(0, MaxInt64) *)
+Lemma time_in_range i :
+  (i <? -9223372036854775808) = false -> (9223372036854775807 <? i) = false -> in_numb NInt64 i = true.
+Proof.
+  intros A B. apply Z.ltb_ge in A. apply Z.ltb_ge in B. apply in_numb_iff.
+  unfold in_num, in_sw. cbn. lia.
+Qed.
+
+(* ---------- loops over slices ---------- *)
+Lemma norm_calls_app a b : norm_calls (a ++ b) = norm_calls a ++ norm_calls b.
+Proof. unfold norm_calls. apply map_app. Qed.
+
+Lemma oconcat_rel {A} (f g : A -> option (list call)) (l : list A) :
+  (forall x, In x l -> exists c, f x = Some c /\ g x = Some (norm_calls c)) ->
+  exists cs, oconcat f l = Some cs /\ oconcat g l = Some (norm_calls cs).
+Proof.
+  induction l as [|x l IH]; intros H; cbn.
+  - exists []. split; reflexivity.
+  - destruct (H x (or_introl eq_refl)) as (c & Hf & Hg).
+    destruct IH as (cs & Ef & Eg); [intros y Hy; apply H; right; exact Hy|].
+    rewrite Hf, Ef, Hg, Eg. exists (c ++ cs). rewrite norm_calls_app. split; reflexivity.
+Qed.
+
+Lemma forallb_In {A} (p : A -> bool) l x : forallb p l = true -> In x l -> p x = true.
+Proof. intros H I. rewrite forallb_forall in H. apply H, I. Qed.
+
+(* slices: the payload_self premise talks about the elements, the Field's payload about the slice *)
+Lemma slice_self a l (p : val -> bool) :
+  implb (a =? 0) (match l with [] => true | _ => false end) = true ->
+  negb (a =? 0) || forallb p l = true -> negb (a =? 0) || forallb self_equal l = true.
+Proof.
+  destruct (a =? 0); cbn; [|reflexivity]. destruct l; [reflexivity|discriminate].
+Qed.
+
+(* ---------- the tactic ---------- *)
+Ltac wraps := repeat match goal with
+  | H : in_numb ?t ?z = true |- context[in_numb ?a ?z] => rewrite (in_numb_same t a z H eq_refl)
+  | H : in_numb ?t ?z = true |- context[wrap ?a (wrap ?b ?z)] => rewrite (wrap2_id t a b z H eq_refl eq_refl)
+  | H : in_numb ?t ?z = true |- context[wrap ?a ?z] => rewrite (wrap1_id t a z H eq_refl)
+  | |- context[in_numb ?a (wrap ?a ?z)] => rewrite in_numb_wrap
+  | |- context[in_numb ?a ?z] =>
+      lazymatch z with Z0 => idtac | Zpos _ => idtac | Zneg _ => idtac end;
+      let b := eval vm_compute in (in_numb a z) in change (in_numb a z) with b
+  end.
+
+Ltac destr_val := repeat match goal with
+  | H : in_typeb _ ?v = true |- _ => is_var v; destruct v; cbn in H; try discriminate H
+  | H : _ && _ = true |- _ => apply andb_true_iff in H; destruct H
+  | b : bool |- _ => destruct b
+  | t : timev |- _ => destruct t
+  end; rewrite ?range64, ?range32 in *.
+
+(* the comparisons of the Time range split *)
+Ltac split_cmp := repeat (match goal with
+  | |- context[Z.ltb ?a ?b] => let E := fresh "E" in destruct (Z.ltb a b) eqn:E
+  end; cbn);
+  try match goal with
+  | A : (?i <? -9223372036854775808) = false, B : (9223372036854775807 <? ?i) = false |- _ =>
+      pose proof (time_in_range i A B)
+  end.
+
+(* an element-wise loop over the slice l *)
+Ltac loops := try match goal with
+  | Hl : forallb (in_typeb ?t) ?l = true |- context[run_loop ?A ?L ?l] =>
+      let cs := fresh "cs" in let E1 := fresh "E" in let E2 := fresh "E" in
+      destruct (oconcat_rel (loop1 A L) (exp_elem t) l) as (cs & E1 & E2);
+      [ let x := fresh "x" in let Hx := fresh "Hx" in
+        intros x Hx; apply (forallb_In _ _ _ Hl) in Hx;
+        destruct x; cbn in Hx; try discriminate Hx;
+        repeat match goal with o : opq |- _ => destruct o end;
+        cbn [loop1 exp_elem]; cbn; eexists; split; reflexivity
+      | unfold run_loop; rewrite E1; cbn; try rewrite E2 ]
+  end.
+
+Ltac finish :=
+  split; [cbn; wraps; try reflexivity|];
+  split; [reflexivity|];
+  cbn; try (intros _; reflexivity); try tauto;
+  try (apply slice_self; assumption).
+
+Ltac solve_ctor :=
+  let stack := fresh "stack" in let k := fresh "k" in let v := fresh "v" in let Hv := fresh "Hv" in
+  intros stack k v Hv; cbn [c_param] in Hv; destr_val;
+  unfold ctor_ok; cbn [c_name c_param];
+  cbn; repeat (progress wraps; cbn); split_cmp; repeat (progress wraps; cbn);
+  loops; finish.
+
+Definition is_dict (c : ctor) : bool := bytes_eqb (intent (c_name c)) ($"dict").
+
+Definition table_ok (l : list ctor) : Prop :=
+  Forall (fun c => is_dict c = false ->
+                   forall stack k v, in_typeb (c_param c) v = true -> ctor_ok stack c k v) l.
+
+(* ---------- every constructor of the generated table ---------- *)
+Lemma all_ctors_ok : table_ok (t_ctors T).
+Proof.
+  unfold table_ok, T; cbn [t_ctors]; unfold Gen.Constructors.ctors.
+  repeat (apply Forall_cons;
+          [ first [ intros D; vm_compute in D; discriminate D | intros _; solve_ctor ] | ]).
+  apply Forall_nil.
+Qed.
+
+Lemma ctor_ok_in c : In c (t_ctors T) -> is_dict c = false ->
+  forall stack k v, in_typeb (c_param c) v = true -> ctor_ok stack c k v.
+Proof. intros I. exact (proj1 (Forall_forall _ _) all_ctors_ok c I). Qed.
+
